@@ -509,7 +509,7 @@ func checkSplit(c SplitCase) error { return dieOnHang("split", c, checkSplitInne
 func init() { vr.Register("split", checkSplit) }
 
 func TestSplit(t *testing.T) {
-	vr.Prop(t, "split", vr.N(20000, 400000), genSplit, metaSplit, checkSplit)
+	vr.Prop(t, "split", vr.N(14000, 300000), genSplit, metaSplit, checkSplit)
 }
 
 // ---------------------------------------------------------------------------
@@ -725,7 +725,7 @@ func checkOverlap(c OverlapCase) error { return dieOnHang("overlap", c, checkOve
 func init() { vr.Register("overlap", checkOverlap) }
 
 func TestOverlap(t *testing.T) {
-	vr.Prop(t, "overlap", vr.N(16000, 300000), genOverlap, metaOverlap, checkOverlap)
+	vr.Prop(t, "overlap", vr.N(12000, 200000), genOverlap, metaOverlap, checkOverlap)
 }
 
 // ---------------------------------------------------------------------------
@@ -931,5 +931,5 @@ func checkLayout(c LayoutCase) error { return dieOnHang("layout", c, checkLayout
 func init() { vr.Register("layout", checkLayout) }
 
 func TestLayout(t *testing.T) {
-	vr.Prop(t, "layout", vr.N(10000, 200000), genLayout, metaLayout, checkLayout)
+	vr.Prop(t, "layout", vr.N(8000, 120000), genLayout, metaLayout, checkLayout)
 }
